@@ -5,6 +5,32 @@ From DV Require Import Proofs.NameOrder Proofs.NameValid Proofs.NameRel Proofs.N
 From DV Require Import Proofs.MessageName Proofs.MessageRender Proofs.MessageRead.
 Open Scope Z_scope.
 
+(* ---------- re-rendering: the same state with a table of ci-equal keys ---------- *)
+Definition with_tbl (r : rst) (tq : ctable) : rst := set_out r (out r) tq.
+
+Lemma tracked_sim (E' E : emitter) sec n r r' tq :
+  tracked E sec n r = Ok (false, r') -> tbl_ci tq (tbl r) ->
+  (forall em t', E (zlen (out r)) (tbl r) = Ok (em, t') ->
+                 exists tq', E' (zlen (out r)) tq = Ok (em, tq') /\ tbl_ci tq' t') ->
+  exists tq', tracked E' sec n (with_tbl r tq) = Ok (false, with_tbl r' tq') /\ tbl_ci tq' (tbl r').
+Proof.
+  intros H TC HE. unfold tracked in *.
+  apply bind_ok in H. destruct H as (r1 & S & H).
+  assert (S' : set_section sec (with_tbl r tq) = Ok (with_tbl r1 tq) /\ out r1 = out r /\ tbl r1 = tbl r).
+  { unfold set_section in *. cbn [rsec with_tbl set_out]. destruct (rsec r =? sec); [injection S as <-; auto|].
+    destruct (rsec r >? sec); [discriminate|]. injection S as <-. auto. }
+  destruct S' as (S' & O1 & T1). rewrite S'. cbn [bind]. rewrite O1, T1 in H.
+  apply bind_ok in H. destruct H as ([em t'] & HEm & H). cbn [fst snd] in H.
+  destruct (HE em t' HEm) as (tq' & HE' & TC').
+  cbn [out tbl with_tbl set_out]. rewrite O1. rewrite HE'. cbn [bind fst snd].
+  destruct (track_end (zlen (out r)) (set_out r1 (out r ++ em) t')) as [big r2] eqn:TE.
+  destruct big; [discriminate|]. injection H as <-.
+  unfold track_end, with_tbl in *. cbn [out maxsz set_out] in *.
+  destruct (zlen (out r ++ em) >? maxsz r1); [discriminate|]. injection TE as <-.
+  exists tq'. split; [|cbn [tbl inc_count set_out]; exact TC'].
+  unfold with_tbl, inc_count, set_out. cbn [out tbl cq can cau cad rsec rflags maxsz reserved padded]. reflexivity.
+Qed.
+
 Section WithOrigin.
 Variable o : option name.
 Hypothesis OO : org_ok o.
@@ -96,27 +122,42 @@ Lemma rrs_em_chain fs owner ty cl ttl : forall rds file t em t',
   TableSound (file ++ em) t' /\
   (rds <> [] -> 0 <= ty <= 65535 /\ 0 <= cl <= 65535 /\ 0 <= ttl <= 4294967295) /\
   exists ds, Chain (file ++ em) (length file) ds (length (file ++ em)) /\
-             Forall2 (desc_of owner ty cl ttl fs) ds rds.
+             Forall2 (desc_of owner ty cl ttl fs) ds rds /\
+    forall Lown, full_labels owner o = Ok Lown ->
+      (forall d ds', ds = d :: ds' -> exists X, full_labels (d_owner d) o = Ok X /\ lsim t X Lown) /\
+      (forall tq ownq Lq, tbl_ci tq t -> full_labels ownq o = Ok Lq -> lsim t Lq Lown ->
+         exists tq', rrs_em ownq ty cl ttl (map d_rd ds) o true (zlen file) tq = Ok (em, tq') /\ tbl_ci tq' t').
 Proof.
   induction rds as [|rd rds IH]; intros file t em t' TS NO HF H.
   - injection H as <- <-. rewrite app_nil_r. split; [exact TS|]. split; [congruence|].
-    exists []. split; [constructor; lia|constructor].
+    exists []. split; [constructor; lia|]. split; [constructor|].
+    intros Lown _. split; [intros d ds' Hd; discriminate|].
+    intros tq ownq Lq TC _ _. exists tq. split; [reflexivity|exact TC].
   - cbn [rrs_em] in H. apply bind_ok in H. destruct H as ([e1 t1] & H1 & H).
     apply bind_ok in H. destruct H as ([e2 t2] & H2 & H). injection H as <- <-. cbn [fst snd] in *.
     inversion HF as [|? ? (PO & S) HF']; subst.
     destruct (name_wf_full o owner OO NO) as (Lown & HFo & NOL).
-    destruct (rr_em_read o o fs owner Lown ty cl ttl rd true true file t e1 t1 OO OO TS HFo NOL PO S H1)
-      as (TS1 & R1 & R2 & R3 & abs' & owner' & rd' & c1 & rdl & CIa & NOa & HX & CI2 & PO2 & S2 & A & B & C & E).
-    destruct (name_back o owner Lown abs' OO NO HFo CIa NOa) as (x' & HX' & CI1 & NO1).
+    destruct (rr_em_read_x o o fs owner Lown ty cl ttl rd true true file t e1 t1 OO OO TS HFo NOL PO S H1)
+      as (TS1 & R1 & R2 & R3 & abs' & owner' & rd' & c1 & rdl & CIa & NOa & HX & CI2 & PO2 & S2 & A & B & C & E & SL & RE1).
+    destruct (name_back_sim o owner Lown abs' true t OO NO HFo SL NOa) as (x' & X & HX' & CI1 & NO1 & HFX & SX).
     assert (x' = owner') by congruence. subst x'.
     rewrite <- zlen_app' in H2.
-    destruct (IH (file ++ e1) t1 e2 t2 TS1 NO HF' H2) as (TS2 & _ & ds & CH & F2).
+    destruct (IH (file ++ e1) t1 e2 t2 TS1 NO HF' H2) as (TS2 & _ & ds & CH & F2 & RE2).
     rewrite <- app_assoc in TS2, CH. split; [exact TS2|]. split; [auto|].
-    exists (mkD owner' ty cl ttl fs rd' :: ds). split.
+    exists (mkD owner' ty cl ttl fs rd' :: ds). split; [|split].
     + econstructor; [|exact CH]. cbn [d_owner d_ty d_cl d_ttl d_fs d_rd].
       exists abs'. rewrite app_assoc. apply RRreads_app.
       exists c1, rdl. split; [exact A|]. split; [lia|]. split; [exact B|]. split; [exact C|]. exact E.
     + constructor; [|exact F2]. unfold desc_of. cbn [d_owner d_ty d_cl d_ttl d_fs d_rd]. auto 10.
+    + intros Lown' HFo'. assert (Lown' = Lown) by congruence. subst Lown'. split.
+      * intros d ds' Hd. injection Hd as <- _. cbn [d_owner]. exists X. split; [exact HFX|exact SX].
+      * intros tq ownq Lq TC HFq SLq.
+        destruct (RE1 tq ownq Lq TC HFq SLq) as (tq1 & E1 & TC1).
+        destruct (ext_rr_em _ _ _ _ _ _ _ _ _ _ _ _ _ H1) as (new1 & -> & _).
+        destruct (RE2 Lown HFo) as (_ & RE2').
+        destruct (RE2' tq1 ownq Lq TC1 HFq (lsim_mono _ _ _ _ SLq)) as (tq' & E2 & TC').
+        exists tq'. split; [|exact TC']. cbn [rrs_em map d_rd]. rewrite E1. cbn [bind fst snd].
+        rewrite <- zlen_app'. rewrite E2. reflexivity.
 Qed.
 
 (* a record set of sections 1..3 of an ordinary (non-update) message *)
@@ -142,21 +183,41 @@ Inductive SecDesc : list rrset -> list rrd -> Prop :=
     Forall2 (desc_of (rname rs) (rtype rs) (rclass rs) (rttl rs) (rs_fs rs)) ds1 (rrds rs) ->
     SecDesc l ds2 -> SecDesc (rs :: l) (ds1 ++ ds2).
 
+(* the record set the reader rebuilds from the records ds of rs *)
+Definition rebuilt_rs (rs : rrset) (ds : list rrd) : rrset :=
+  mkRR (match ds with d :: _ => d_owner d | [] => rname rs end) (rclass rs) (rtype rs) (rcovers rs) None (rttl rs)
+       (map d_rd ds).
+
+Inductive Rebuilt : list rrset -> list rrd -> list rrset -> Prop :=
+| rb_nil : Rebuilt [] [] []
+| rb_cons rs l ds1 ds2 l2 :
+    length ds1 = length (rrds rs) -> Rebuilt l ds2 l2 -> Rebuilt (rs :: l) (ds1 ++ ds2) (rebuilt_rs rs ds1 :: l2).
+
 Lemma rrset_em_chain rs file t em t' :
   TableSound file t -> wf_rrset rs ->
   rrset_em rs o true (zlen file) t = Ok (em, t') ->
   TableSound (file ++ em) t' /\
   exists ds, Chain (file ++ em) (length file) ds (length (file ++ em)) /\
              Forall2 (desc_of (rname rs) (rtype rs) (rclass rs) (rttl rs) (rs_fs rs)) ds (rrds rs) /\
-             rrset_count rs = zlen ds.
+             rrset_count rs = zlen ds /\
+             (forall tq, tbl_ci tq t ->
+                exists tq', rrset_em (rebuilt_rs rs ds) o true (zlen file) tq = Ok (em, tq') /\ tbl_ci tq' t').
 Proof.
   intros TS (NO & DEL & NE & _ & _ & _ & (fs & HS & HF) & _) H.
   unfold rrset_em, wclass in H. rewrite DEL in H. unfold rs_fs. rewrite HS.
   destruct (rrds rs) as [|rd rds] eqn:E; [congruence|]. rewrite <- E in *.
-  destruct (rrs_em_chain fs _ _ _ _ _ _ _ _ _ TS NO HF H) as (TS' & _ & ds & CH & F2).
+  destruct (rrs_em_chain fs _ _ _ _ _ _ _ _ _ TS NO HF H) as (TS' & _ & ds & CH & F2 & RE).
   split; [exact TS'|]. exists ds. split; [exact CH|]. split; [exact F2|].
-  unfold rrset_count. rewrite E. rewrite <- E. unfold zlen. f_equal.
-  symmetry. eapply Forall2_len. exact F2.
+  split.
+  { unfold rrset_count. rewrite E. rewrite <- E. unfold zlen. f_equal.
+    symmetry. eapply Forall2_len. exact F2. }
+  intros tq TC. destruct (name_wf_full o (rname rs) OO NO) as (Lown & HFo & _).
+  destruct (RE Lown HFo) as (HD & RE').
+  destruct ds as [|d ds']; [rewrite E in F2; inversion F2|].
+  destruct (HD d ds' eq_refl) as (X & HFX & SX).
+  destruct (RE' tq (d_owner d) X TC HFX SX) as (tq' & E1 & TC').
+  exists tq'. split; [|exact TC'].
+  unfold rrset_em, wclass, rebuilt_rs. cbn [rrds rdeleting rname rtype rclass rttl map]. exact E1.
 Qed.
 
 Definition counts_sum (r : rst) : Z := cq r + can r + cau r + cad r.
@@ -165,7 +226,7 @@ Definition count_of (r : rst) (sec : Z) : Z :=
 
 (* the section loop of Message.to_wire when nothing overflows; `file` is any octet string of
    the same length as the output so far (the output with its final header) *)
-Lemma add_rrsets_chain sec : forall l r r' file,
+Lemma add_rrsets_chain_x sec : forall l r r' file,
   1 <= sec <= 3 ->
   zlen file = zlen (out r) -> TableSound file (tbl r) -> TblBelow r -> Forall wf_rrset l ->
   add_rrsets o sec l r = Ok (false, r') ->
@@ -175,21 +236,25 @@ Lemma add_rrsets_chain sec : forall l r r' file,
     count_of r' sec = count_of r sec + zlen ds /\
     (forall s, 0 <= s <= 3 -> s <> sec -> count_of r' s = count_of r s) /\
     rflags r' = rflags r /\ maxsz r' = maxsz r /\ reserved r' = reserved r /\ padded r' = padded r /\
-    rsec r <= rsec r' <= Z.max (rsec r) sec.
+    rsec r <= rsec r' <= Z.max (rsec r) sec /\
+    (forall l2 tq, Rebuilt l ds l2 -> tbl_ci tq (tbl r) ->
+       exists tq', add_rrsets o sec l2 (with_tbl r tq) = Ok (false, with_tbl r' tq') /\ tbl_ci tq' (tbl r')).
 Proof.
   induction l as [|rs l IH]; intros r r' file Hsec Hz TS TB WF H.
   - injection H as <-. exists [], []. rewrite !app_nil_r.
     split; [reflexivity|]. split; [exact TS|]. split; [exact TB|].
     split; [constructor; lia|]. split; [constructor|].
     split; [change (zlen (@nil rrd)) with 0; lia|].
-    split; [reflexivity|]. repeat split; lia.
+    split; [reflexivity|]. split; [reflexivity|]. split; [reflexivity|]. split; [reflexivity|]. split; [reflexivity|].
+    split; [lia|].
+    intros l2 tq RB TC. inversion RB; subst. exists tq. split; [|exact TC]. cbn [add_rrsets]. destruct r; reflexivity.
   - cbn [add_rrsets] in H. apply bind_ok in H. destruct H as ([b1 r1] & H1 & H). cbn [fst snd] in H.
     destruct b1; [discriminate|]. inversion WF as [|? ? W1 WF']; subst.
     rewrite add_rrset_tracked in H1.
     destruct (tracked_spec _ _ _ _ _ _ (ext_rrset_em _ _ _) TB H1) as (Hs & em1 & new & HE & F & [(_ & Hfit & ->)|(Hb & _)]);
       [|discriminate].
     rewrite <- Hz in HE.
-    destruct (rrset_em_chain rs file (tbl r) em1 _ TS W1 HE) as (TS1 & ds1 & CH1 & F1 & Hcnt).
+    destruct (rrset_em_chain rs file (tbl r) em1 _ TS W1 HE) as (TS1 & ds1 & CH1 & F1 & Hcnt & RE1).
     set (r1 := inc_count (set_out (set_rsec r sec) (out r ++ em1) (tbl r ++ new)) sec (rrset_count rs)) in *.
     assert (Hz1 : zlen (file ++ em1) = zlen (out r1)).
     { unfold r1. cbn [out inc_count set_out]. rewrite !zlen_app'. lia. }
@@ -198,7 +263,7 @@ Proof.
       rewrite zlen_app'. apply Forall_app. split.
       - eapply Forall_impl; [|exact TB]. cbn beta. intros kv Hk. pose proof (zlen_nn em1). nlia.
       - eapply Forall_impl; [|exact F]. cbn beta. intros kv (Hk & _). nlia. }
-    destruct (IH r1 r' (file ++ em1) Hsec Hz1 TS1 TB1 WF' H) as (em2 & ds2 & O2 & TS2 & TB2 & CH2 & SD2 & C2 & C2' & FL & MX & RV & PD & RS).
+    destruct (IH r1 r' (file ++ em1) Hsec Hz1 TS1 TB1 WF' H) as (em2 & ds2 & O2 & TS2 & TB2 & CH2 & SD2 & C2 & C2' & FL & MX & RV & PD & RS & RE2).
     exists (em1 ++ em2), (ds1 ++ ds2).
     rewrite <- app_assoc in TS2, CH2.
     split; [rewrite O2; unfold r1; cbn [out inc_count set_out]; rewrite <- app_assoc; reflexivity|].
@@ -215,8 +280,40 @@ Proof.
     { intros s Hr Hne. rewrite (C2' s Hr Hne). unfold count_of, r1. cbn [cq can cau cad inc_count set_out set_rsec].
       destruct (Z.eqb_spec sec 0); destruct (Z.eqb_spec sec 1); destruct (Z.eqb_spec sec 2); destruct (Z.eqb_spec sec 3);
         destruct (Z.eqb_spec s 0); destruct (Z.eqb_spec s 1); destruct (Z.eqb_spec s 2); try lia; reflexivity. }
-    unfold r1 in *. cbn [rflags maxsz reserved padded rsec inc_count set_out set_rsec] in *.
-    repeat split; try assumption; lia.
+    split; [rewrite FL; reflexivity|]. split; [rewrite MX; reflexivity|]. split; [rewrite RV; reflexivity|].
+    split; [rewrite PD; reflexivity|].
+    split; [unfold r1 in RS; cbn [rsec inc_count set_out set_rsec] in RS; lia|].
+    intros l2 tq RB TC. inversion RB as [|rs0 l0 da db l2' Hlen RB' E1 E2 E3]; subst.
+    assert (da = ds1 /\ db = ds2) as (-> & ->).
+    { apply app_inj_len; [|exact E2]. rewrite Hlen. symmetry. eapply Forall2_len. exact F1. }
+    rewrite Hz in RE1.
+    destruct (tracked_sim (rrset_em (rebuilt_rs rs ds1) o true) _ _ _ _ _ tq H1 TC) as (tq1 & T1 & TC1).
+    { intros em0 t0 HE0. rewrite <- Hz in HE0. assert (em0 = em1 /\ t0 = tbl r ++ new) as (-> & ->) by (split; congruence).
+      apply RE1. exact TC. }
+    destruct (RE2 l2' tq1 RB' TC1) as (tq' & T2 & TC').
+    exists tq'. split; [|exact TC']. cbn [add_rrsets]. rewrite add_rrset_tracked.
+    assert (Ecnt : rrset_count (rebuilt_rs rs ds1) = rrset_count rs).
+    { rewrite Hcnt. unfold rrset_count, rebuilt_rs. cbn [rrds]. destruct ds1 as [|d0 ds1']; [|cbn [map]; unfold zlen; cbn [length]; rewrite map_length; reflexivity].
+      exfalso. destruct W1 as (_ & _ & NE & _). apply Forall2_len in F1. cbn [length] in F1. destruct (rrds rs); [congruence|discriminate]. }
+    rewrite Ecnt. rewrite T1. cbn [bind fst snd]. exact T2.
+Qed.
+
+Lemma add_rrsets_chain sec : forall l r r' file,
+  1 <= sec <= 3 ->
+  zlen file = zlen (out r) -> TableSound file (tbl r) -> TblBelow r -> Forall wf_rrset l ->
+  add_rrsets o sec l r = Ok (false, r') ->
+  exists em ds,
+    out r' = out r ++ em /\ TableSound (file ++ em) (tbl r') /\ TblBelow r' /\
+    Chain (file ++ em) (length file) ds (length (file ++ em)) /\ SecDesc l ds /\
+    count_of r' sec = count_of r sec + zlen ds /\
+    (forall s, 0 <= s <= 3 -> s <> sec -> count_of r' s = count_of r s) /\
+    rflags r' = rflags r /\ maxsz r' = maxsz r /\ reserved r' = reserved r /\ padded r' = padded r /\
+    rsec r <= rsec r' <= Z.max (rsec r) sec.
+Proof.
+  intros l r r' file Hsec Hz TS TB WF H.
+  destruct (add_rrsets_chain_x sec l r r' file Hsec Hz TS TB WF H)
+    as (em & ds & A1 & A2 & A3 & A4 & A5 & A6 & A7 & A8 & A9 & A10 & A11 & A12 & _).
+  exists em, ds. repeat (split; [assumption|]). exact A12.
 Qed.
 
 (* ---------- regrouping: the reader's index rebuilds the record sets ---------- *)
@@ -334,10 +431,10 @@ Lemma regroup_inner ty cl ttl cov fs owner : forall ds rds S cur,
   (rds <> [] -> is_singleton ty = false) ->
   (forall done, Forall2 rdata_ci (rrds cur) done -> NoDupRd (done ++ rds)) ->
   exists rds', Forall2 rdata_ci rds' rds /\
-    fold_left step_sec ds (S ++ [cur]) = S ++ [set_rds cur ttl (rrds cur ++ rds')].
+    fold_left step_sec ds (S ++ [cur]) = S ++ [set_rds cur ttl (rrds cur ++ rds')] /\ rds' = map d_rd ds.
 Proof.
   induction ds as [|d ds IH]; intros rds S cur F2 CN CC CT CV CD CL NE COV SG ND.
-  - inversion F2; subst. exists []. split; [constructor|]. cbn [fold_left]. rewrite app_nil_r.
+  - inversion F2; subst. exists []. split; [constructor|]. split; [|reflexivity]. cbn [fold_left]. rewrite app_nil_r.
     destruct cur; cbn in *. subst. reflexivity.
   - destruct rds as [|rd rds0]; [exfalso; eapply Forall2_cons_nil_inv; exact F2|].
     apply Forall2_cons_inv in F2. destruct F2 as ((D1 & D2 & D3 & D4 & D5 & D6 & D7 & D8 & D9) & F2').
@@ -363,7 +460,7 @@ Proof.
       - apply IHy; assumption. }
     rewrite Hadd.
     set (cur' := set_rds cur ttl (rrds cur ++ [d_rd d])).
-    destruct (IH rds0 S cur' F2') as (rds' & R' & E').
+    destruct (IH rds0 S cur' F2') as (rds' & R' & E' & M').
     + exact CN.
     + exact CC.
     + exact CT.
@@ -388,7 +485,7 @@ Proof.
         apply Forall_app in Hh. destruct Hh as (Hh1 & Hh2). inversion Hh2 as [|? ? Hrd Hh3]; subst.
         apply Forall_app. split; [exact Hh1|]. constructor; [|exact Hh3].
         rewrite rdata_eqb_sym, Hyr, rdata_eqb_sym. exact Hrd.
-    + exists (d_rd d :: rds'). split; [constructor; assumption|].
+    + exists (d_rd d :: rds'). split; [constructor; assumption|]. split; [|cbn [map]; rewrite M'; reflexivity].
       rewrite E'. unfold cur'. cbn [rrds set_rds]. rewrite <- app_assoc. cbn [app].
       destruct cur; reflexivity.
 Qed.
@@ -403,7 +500,7 @@ Lemma regroup_rrset rs ds S :
   wf_rrset rs ->
   Forall2 (desc_of (rname rs) (rtype rs) (rclass rs) (rttl rs) (rs_fs rs)) ds (rrds rs) ->
   Forall (fun s => key_of_match rs s = false) S ->
-  exists rs', rrset_equiv rs' rs /\ fold_left step_sec ds S = S ++ [rs'].
+  exists rs', rrset_equiv rs' rs /\ fold_left step_sec ds S = S ++ [rs'] /\ rs' = rebuilt_rs rs ds.
 Proof.
   intros (NO & DEL & NE & _ & _ & TTL & _ & COV & ND & SG) F2 FR.
   destruct (rrds rs) as [|rd rds0] eqn:E; [congruence|].
@@ -418,7 +515,7 @@ Proof.
   assert (Hc : rrset_add (mkRR (d_owner d) (rclass rs) (rtype rs) (rcovers rs) None 0 []) (d_rd d) (rttl rs) = cur) by reflexivity.
   rewrite Hc.
   destruct (regroup_inner (rtype rs) (rclass rs) (rttl rs) (rcovers rs) (rs_fs rs) (rname rs) ds0 rds0 S cur F2')
-    as (rds' & R' & E'); try reflexivity.
+    as (rds' & R' & E' & M'); try reflexivity.
   - exact D5.
   - discriminate.
   - exact COV'.
@@ -431,7 +528,7 @@ Proof.
     assert (Hyr : rdata_eqb y b = rdata_eqb rd b).
     { unfold rdata_eqb. rewrite <- (rd_digest_ci _ _ Hy), (rd_digest_ci _ _ D7). reflexivity. }
     rewrite Hyr. exact Hb.
-  - exists (set_rds cur (rttl rs) (rrds cur ++ rds')). split; [|exact E'].
+  - exists (set_rds cur (rttl rs) (rrds cur ++ rds')). split; [|split; [exact E'|rewrite M'; reflexivity]].
     unfold rrset_equiv, cur. cbn [rname rclass rtype rcovers rdeleting rttl rrds set_rds app].
     split; [exact D5|]. split; [reflexivity|]. split; [reflexivity|].
     split; [reflexivity|]. split; [symmetry; exact DEL|]. split; [reflexivity|].
@@ -446,21 +543,22 @@ Fixpoint keys_fresh (S l : list rrset) : Prop :=
 
 Lemma regroup_sec : forall l ds S S0,
   SecDesc l ds -> Forall wf_rrset l -> Forall2 rrset_equiv S S0 -> keys_fresh S0 l ->
-  exists l', Forall2 rrset_equiv l' l /\ fold_left step_sec ds S = S ++ l'.
+  exists l', Forall2 rrset_equiv l' l /\ fold_left step_sec ds S = S ++ l' /\ Rebuilt l ds l'.
 Proof.
   induction l as [|rs l IH]; intros ds S S0 SD WF EQ KF.
-  - inversion SD; subst. exists []. split; [constructor|]. cbn. rewrite app_nil_r. reflexivity.
+  - inversion SD; subst. exists []. split; [constructor|]. split; [|constructor]. cbn. rewrite app_nil_r. reflexivity.
   - inversion SD as [|? ? ds1 ds2 F2 SD']; subst. inversion WF as [|? ? W1 WF']; subst.
     destruct KF as (K1 & K2). rewrite fold_left_app.
-    destruct (regroup_rrset rs ds1 S W1 F2) as (rs' & Er & E1).
+    destruct (regroup_rrset rs ds1 S W1 F2) as (rs' & Er & E1 & M1).
     { clear - K1 EQ. induction EQ as [|s s0 S S0 Hs _ IHS]; [constructor|].
       inversion K1; subst. constructor; [|apply IHS; assumption].
       rewrite (key_match_equiv rs s0 s Hs). assumption. }
     rewrite E1.
-    destruct (IH ds2 (S ++ [rs']) (S0 ++ [rs]) SD' WF') as (l' & El & E2).
+    destruct (IH ds2 (S ++ [rs']) (S0 ++ [rs]) SD' WF') as (l' & El & E2 & RB2).
     + apply Forall2_app; [exact EQ|]. constructor; [exact Er|constructor].
     + exact K2.
-    + exists (rs' :: l'). split; [constructor; assumption|]. rewrite E2, <- app_assoc. reflexivity.
+    + exists (rs' :: l'). split; [constructor; assumption|]. split; [rewrite E2, <- app_assoc; reflexivity|].
+      rewrite M1. constructor; [eapply Forall2_len; exact F2|exact RB2].
 Qed.
 
 Lemma get_set_sec m sec x : 0 <= sec <= 3 -> get_sec (set_sec m sec x) sec = x.
@@ -500,20 +598,25 @@ Qed.
 Lemma q_em_read n ty cl file t em t' :
   TableSound file t -> name_wf o n -> q_em o n ty cl (zlen file) t = Ok (em, t') ->
   TableSound (file ++ em) t' /\
-  exists n', ci_equal n' n /\ name_wf o n' /\ QReads (file ++ em) (length file) n' ty cl (length (file ++ em)).
+  exists n', ci_equal n' n /\ name_wf o n' /\ QReads (file ++ em) (length file) n' ty cl (length (file ++ em)) /\
+    (forall tq, tbl_ci tq t -> exists tq', q_em o n' ty cl (zlen file) tq = Ok (em, tq') /\ tbl_ci tq' t').
 Proof.
   intros TS NO H. unfold q_em in H.
   apply bind_ok in H. destruct H as ([e1 t1] & H1 & H).
   apply bind_ok in H. destruct H as (h1 & E1 & H). apply bind_ok in H. destruct H as (h2 & E2 & H).
   cbn [fst snd] in H. injection H as <- <-.
+  pose proof E1 as P1. pose proof E2 as P2.
   apply pack16_ok in E1, E2. destruct E1 as (-> & R1). destruct E2 as (-> & R2).
   destruct (name_wf_full o n OO NO) as (L & HF & NOL).
-  destruct (nm_em_sound _ _ _ _ _ _ _ _ TS HF NOL H1) as (TS1 & L' & CIL & NOL' & D1).
-  destruct (name_back o n L L' OO NO HF CIL NOL') as (n' & HRZ & CI1 & NO1).
+  destruct (nm_em_sound_sim _ _ _ _ _ _ _ _ TS HF NOL H1) as (TS1 & L' & SL & NOL' & D1).
+  destruct (name_back_sim o n L L' true t OO NO HF SL NOL') as (n' & X & HRZ & CI1 & NO1 & HFX & SX).
   split.
   { rewrite app_assoc. apply TableSound_app. exact TS1. }
   exists n'. split; [exact CI1|]. split; [exact NO1|].
   pose proof (Dec_bounds _ _ _ _ _ D1) as (B1 & B2 & B3).
+  split.
+  2:{ intros tq TC. destruct (nm_em_resim n' n o true (zlen file) tq t e1 t1 X L TC HF HFX SX H1) as (tq1 & E1 & TC1).
+      exists tq1. split; [|exact TC1]. unfold q_em. rewrite E1. cbn [bind fst snd]. rewrite P1, P2. reflexivity. }
   split; [lia|]. split; [rewrite !app_length in *; cbn [length MessageM.u16]; lia|].
   intros ext. exists (length (file ++ e1)).
   split; [rewrite !app_length; cbn [length MessageM.u16]; lia|].
@@ -575,20 +678,26 @@ Lemma add_questions_chain : forall l r r' file,
     out r' = out r ++ em /\ TableSound (file ++ em) (tbl r') /\ TblBelow r' /\
     QChain (file ++ em) (length file) qs (length (file ++ em)) /\ Forall2 q_desc l qs /\
     cq r' = cq r + zlen qs /\ can r' = can r /\ cau r' = cau r /\ cad r' = cad r /\
-    rflags r' = rflags r /\ maxsz r' = maxsz r /\ reserved r' = reserved r /\ padded r' = padded r.
+    rflags r' = rflags r /\ maxsz r' = maxsz r /\ reserved r' = reserved r /\ padded r' = padded r /\
+    (forall tq, tbl_ci tq (tbl r) ->
+       exists tq', add_questions o (map (fun q => mkRR (q_name q) (q_cl q) (q_ty q) 0 None 0 []) qs) (with_tbl r tq)
+                   = Ok (false, with_tbl r' tq') /\ tbl_ci tq' (tbl r')).
 Proof.
   induction l as [|rs l IH]; intros r r' file Hz TS TB WF H.
   - injection H as <-. exists [], []. rewrite !app_nil_r.
     split; [reflexivity|]. split; [exact TS|]. split; [exact TB|].
     split; [constructor; lia|]. split; [constructor|].
-    change (zlen (@nil qd)) with 0. repeat split; lia.
+    change (zlen (@nil qd)) with 0.
+    split; [lia|]. split; [reflexivity|]. split; [reflexivity|]. split; [reflexivity|]. split; [reflexivity|].
+    split; [reflexivity|]. split; [reflexivity|]. split; [reflexivity|].
+    intros tq TC. exists tq. split; [reflexivity|exact TC].
   - cbn [add_questions] in H. apply bind_ok in H. destruct H as ([b1 r1] & H1 & H). cbn [fst snd] in H.
     destruct b1; [discriminate|]. inversion WF as [|? ? W1 WF']; subst.
     rewrite add_question_tracked in H1.
     destruct (tracked_spec _ _ _ _ _ _ (ext_q_em _ _ _ _) TB H1) as (Hs & em1 & new & HE & F & [(_ & Hfit & ->)|(Hb & _)]);
       [|discriminate].
     rewrite <- Hz in HE.
-    destruct (q_em_read _ _ _ file (tbl r) em1 _ TS W1 HE) as (TS1 & n' & CI & NO' & QR).
+    destruct (q_em_read _ _ _ file (tbl r) em1 _ TS W1 HE) as (TS1 & n' & CI & NO' & QR & RE1).
     set (r1 := inc_count (set_out (set_rsec r 0) (out r ++ em1) (tbl r ++ new)) 0 1) in *.
     assert (Hz1 : zlen (file ++ em1) = zlen (out r1)).
     { unfold r1. cbn [out inc_count set_out]. rewrite !zlen_app'. lia. }
@@ -597,7 +706,7 @@ Proof.
       rewrite zlen_app'. apply Forall_app. split.
       - eapply Forall_impl; [|exact TB]. cbn beta. intros kv Hk. pose proof (zlen_nn em1). nlia.
       - eapply Forall_impl; [|exact F]. cbn beta. intros kv (Hk & _). nlia. }
-    destruct (IH r1 r' (file ++ em1) Hz1 TS1 TB1 WF' H) as (em2 & qs & O2 & TS2 & TB2 & CH2 & QD & C0 & C1 & C2 & C3 & FL & MX & RV & PD).
+    destruct (IH r1 r' (file ++ em1) Hz1 TS1 TB1 WF' H) as (em2 & qs & O2 & TS2 & TB2 & CH2 & QD & C0 & C1 & C2 & C3 & FL & MX & RV & PD & RE2).
     exists (em1 ++ em2), (mkQ n' (rtype rs) (rclass rs) :: qs).
     rewrite <- app_assoc in TS2, CH2.
     split; [rewrite O2; unfold r1; cbn [out inc_count set_out]; rewrite <- app_assoc; reflexivity|].
@@ -605,8 +714,17 @@ Proof.
     split.
     { econstructor; [|exact CH2]. cbn [q_name q_ty q_cl]. rewrite app_assoc. apply QReads_app. exact QR. }
     split; [constructor; [unfold q_desc; cbn [q_name q_ty q_cl]; auto|exact QD]|].
-    unfold r1 in *. cbn [cq can cau cad rflags maxsz reserved padded inc_count set_out set_rsec Z.eqb] in *.
-    rewrite zlen_cons'. repeat split; try assumption; lia.
+    split; [rewrite zlen_cons', C0; unfold r1; cbn [cq inc_count set_out set_rsec Z.eqb]; lia|].
+    split; [rewrite C1; reflexivity|]. split; [rewrite C2; reflexivity|]. split; [rewrite C3; reflexivity|].
+    split; [rewrite FL; reflexivity|]. split; [rewrite MX; reflexivity|]. split; [rewrite RV; reflexivity|].
+    split; [rewrite PD; reflexivity|].
+    intros tq TC. rewrite Hz in RE1.
+    destruct (tracked_sim (q_em o n' (rtype rs) (rclass rs)) _ _ _ _ _ tq H1 TC) as (tq1 & T1 & TC1).
+    { intros em0 t0 HE0. rewrite <- Hz in HE0. assert (em0 = em1 /\ t0 = tbl r ++ new) as (-> & ->) by (split; congruence).
+      apply RE1. exact TC. }
+    destruct (RE2 tq1 TC1) as (tq' & T2 & TC').
+    exists tq'. split; [|exact TC']. cbn [map add_questions q_name q_ty q_cl rname rtype rclass].
+    rewrite add_question_tracked. rewrite T1. cbn [bind fst snd]. exact T2.
 Qed.
 
 (* ---------- OPT ---------- *)
@@ -747,7 +865,9 @@ Lemma add_opt_chain (oo : optrec) os ts r r' file :
     out r' = out r ++ em /\ opts_wire (oopts oo) = Ok wb /\ ci_equal owner' [[]] /\
     RRreads o o (file ++ em) (length file) abs' owner' tOPT (opayload oo) (oflags oo) [FRest] [PB wb] (length (file ++ em)) /\
     TableSound (file ++ em) (tbl r') /\
-    cq r' = cq r /\ can r' = can r /\ cau r' = cau r /\ cad r' = cad r + 1 /\ rflags r' = rflags r.
+    cq r' = cq r /\ can r' = can r /\ cau r' = cau r /\ cad r' = cad r + 1 /\ rflags r' = rflags r /\
+    (forall tq, tbl_ci tq (tbl r) ->
+       exists tq', add_opt o oo 0 os ts (with_tbl r tq) = Ok (false, with_tbl r' tq') /\ tbl_ci tq' (tbl r')).
 Proof.
   intros NW Hz TS TB H. unfold add_opt in H. cbn [Z.eqb] in H.
   apply bind_ok in H. destruct H as (rs & HR & H). unfold opt_rrset in HR.
@@ -757,20 +877,31 @@ Proof.
     [|discriminate].
   rewrite <- Hz in HE. unfold rrset_em, wclass in HE. cbn [rrds rdeleting rname rtype rclass rttl] in HE.
   cbn [rrs_em] in HE. apply bind_ok in HE. destruct HE as ([e1 t1] & H1 & HE). cbn [bind fst snd] in HE.
-  injection HE as <- <-. rewrite app_nil_r in *.
+  injection HE as <- ->. rewrite app_nil_r in *.
   destruct (name_wf_full o [[]] OO NW) as (Lr & HFr & NOr).
   assert (PO : Forall (piece_wf o) [PB wb]) by (constructor; [exact Logic.I|constructor]).
   assert (S0 : shaped [FRest] [PB wb]) by constructor.
-  destruct (rr_em_read o o [FRest] [[]] Lr tOPT (opayload oo) (oflags oo) [PB wb] true true file (tbl r) e1 t1 OO OO TS HFr NOr PO S0 H1)
-    as (TS1 & R1 & R2 & R3 & abs' & owner' & rd' & c1 & rdl & CIa & NOa & HX & CI2 & PO2 & S2 & A & B & C & E).
+  destruct (rr_em_read_x o o [FRest] [[]] Lr tOPT (opayload oo) (oflags oo) [PB wb] true true file (tbl r) e1 _ OO OO TS HFr NOr PO S0 H1)
+    as (TS1 & R1 & R2 & R3 & abs' & owner' & rd' & c1 & rdl & CIa & NOa & HX & CI2 & PO2 & S2 & A & B & C & E & SL & RE1).
   destruct (name_back o [[]] Lr abs' OO NW HFr CIa NOa) as (x' & HX' & CI1 & _).
   assert (x' = owner') by congruence. subst x'.
+  assert (rd' = [PB wb]).
+  { inversion CI2 as [|x y l l' Hxy Hl]; subst. inversion Hl; subst. destruct x; cbn in Hxy; try contradiction. subst. reflexivity. }
+  subst rd'.
   exists e1, wb, abs', owner'. cbn [out tbl cq can cau cad rflags inc_count set_out set_rsec Z.eqb Pos.eqb].
   split; [reflexivity|]. split; [exact HW|]. split; [exact CI1|]. split.
-  - assert (rd' = [PB wb]).
-    { inversion CI2 as [|x y l l' Hxy Hl]; subst. inversion Hl; subst. destruct x; cbn in Hxy; try contradiction. subst. reflexivity. }
-    subst rd'. exists c1, rdl. split; [exact A|]. split; [lia|]. split; [exact B|]. split; [exact C|]. exact E.
-  - split; [exact TS1|]. unfold rrset_count. cbn [rrds]. change (zlen [[PB wb]]) with 1. repeat split; lia.
+  - exists c1, rdl. split; [exact A|]. split; [lia|]. split; [exact B|]. split; [exact C|]. exact E.
+  - split; [exact TS1|]. unfold rrset_count. cbn [rrds]. change (zlen [[PB wb]]) with 1.
+    split; [lia|]. split; [lia|]. split; [lia|]. split; [lia|]. split; [lia|].
+    intros tq TC.
+    destruct (tracked_sim (rrset_em (mkRR [[]] (opayload oo) tOPT 0 None (oflags oo) [[PB wb]]) o true) _ _ _ _ _ tq H TC) as (tq1 & T1 & TC1).
+    { intros em0 t0 HE0. unfold rrset_em, wclass in HE0 |- *. cbn [rrds rdeleting rname rtype rclass rttl rrs_em] in HE0 |- *.
+      apply bind_ok in HE0. destruct HE0 as ([e1' t1'] & H1' & HE0). cbn [bind fst snd] in HE0. injection HE0 as <- <-.
+      rewrite <- Hz in H1' |- *. assert (e1' = e1 /\ t1' = tbl r ++ new) as (-> & ->) by (split; congruence).
+      destruct (RE1 tq [[]] Lr TC HFr (lsim_refl _ _)) as (tq1 & E1 & TC1). exists tq1. split; [|exact TC1].
+      rewrite E1. reflexivity. }
+    exists tq1. split; [|exact TC1]. unfold add_opt, opt_rrset. cbn [Z.eqb]. rewrite HW. cbn [bind].
+    rewrite add_rrset_tracked. exact T1.
 Qed.
 
 Lemma apply_d_keeps sec m d :
